@@ -385,13 +385,22 @@ IsFault(b, phase, idx) == Fault.board = b /\ Fault.phase = phase /\ Fault.index 
    p_teams:
     sent[self] := Append(sent[self], MTeams);    \* (recv "ready to start")
    p_board:
-    sent[self] := Append(sent[self], MStart);    \* (recv "ready for deal")
-    call SyncSeat(seat);
+    \* (recv "ready for deal"); a malformed line instead (growth beyond the
+    \* listed properties, Fault.phase = "ready-deal", index = seat) is answered
+    \* with an error, the connection is closed and the thread ends - nobody
+    \* tells the main thread
+    sent[self] := sent[self] \o (IF IsFault(bn, "ready-deal", seat)
+                                  THEN <<MStart, MErr("unexpected")>> ELSE <<MStart>>);
+    if (IsFault(bn, "ready-deal", seat)) { closed[self] := TRUE; goto p_end; }
+    else { call SyncSeat(seat); };
    p_hdr:
     await toSeat[seat] # <<>>;
-    sent[self] := Append(sent[self], Head(toSeat[seat]));
+    sent[self] := sent[self] \o (IF IsFault(bn, "ready-cards", seat)
+                                  THEN <<Head(toSeat[seat]), MErr("unexpected")>>
+                                  ELSE <<Head(toSeat[seat])>>);
     toSeat[seat] := Tail(toSeat[seat]);          \* (recv "ready for cards")
-    call SyncSeat(seat);
+    if (IsFault(bn, "ready-cards", seat)) { closed[self] := TRUE; goto p_end; }
+    else { call SyncSeat(seat); };
    p_hand:
     await toSeat[seat] # <<>>;
     sent[self] := Append(sent[self], Head(toSeat[seat]));
@@ -1168,36 +1177,49 @@ p_teams(self) == /\ pc[self] = "p_teams"
                                  isdummy >>
 
 p_board(self) == /\ pc[self] = "p_board"
-                 /\ sent' = [sent EXCEPT ![self] = Append(sent[self], MStart)]
-                 /\ /\ me' = [me EXCEPT ![self] = seat[self]]
-                    /\ stack' = [stack EXCEPT ![self] = << [ procedure |->  "SyncSeat",
-                                                             pc        |->  "p_hdr",
-                                                             me        |->  me[self] ] >>
-                                                         \o stack[self]]
-                 /\ pc' = [pc EXCEPT ![self] = "ss_enter"]
+                 /\ sent' = [sent EXCEPT ![self] = sent[self] \o (IF IsFault(bn[self], "ready-deal", seat[self])
+                                                                   THEN <<MStart, MErr("unexpected")>> ELSE <<MStart>>)]
+                 /\ IF IsFault(bn[self], "ready-deal", seat[self])
+                       THEN /\ closed' = [closed EXCEPT ![self] = TRUE]
+                            /\ pc' = [pc EXCEPT ![self] = "p_end"]
+                            /\ UNCHANGED << stack, me >>
+                       ELSE /\ /\ me' = [me EXCEPT ![self] = seat[self]]
+                               /\ stack' = [stack EXCEPT ![self] = << [ procedure |->  "SyncSeat",
+                                                                        pc        |->  "p_hdr",
+                                                                        me        |->  me[self] ] >>
+                                                                    \o stack[self]]
+                            /\ pc' = [pc EXCEPT ![self] = "ss_enter"]
+                            /\ UNCHANGED closed
                  /\ UNCHANGED << table, backlog, ev, bar, evSync, evSeat, 
-                                 toSeat, fromSeat, closed, started, finished, 
-                                 threads, log, logState, aborted, interrupted, 
-                                 waitfor, cur, alive, b, auc, ply, msg_, j, 
-                                 trick, ci, played, nc, seat, rq, msg, bn, act, 
-                                 myturn, ncalls, declr, tr, i, cardk, isdummy >>
+                                 toSeat, fromSeat, started, finished, threads, 
+                                 log, logState, aborted, interrupted, waitfor, 
+                                 cur, alive, b, auc, ply, msg_, j, trick, ci, 
+                                 played, nc, seat, rq, msg, bn, act, myturn, 
+                                 ncalls, declr, tr, i, cardk, isdummy >>
 
 p_hdr(self) == /\ pc[self] = "p_hdr"
                /\ toSeat[seat[self]] # <<>>
-               /\ sent' = [sent EXCEPT ![self] = Append(sent[self], Head(toSeat[seat[self]]))]
+               /\ sent' = [sent EXCEPT ![self] = sent[self] \o (IF IsFault(bn[self], "ready-cards", seat[self])
+                                                                 THEN <<Head(toSeat[seat[self]]), MErr("unexpected")>>
+                                                                 ELSE <<Head(toSeat[seat[self]])>>)]
                /\ toSeat' = [toSeat EXCEPT ![seat[self]] = Tail(toSeat[seat[self]])]
-               /\ /\ me' = [me EXCEPT ![self] = seat[self]]
-                  /\ stack' = [stack EXCEPT ![self] = << [ procedure |->  "SyncSeat",
-                                                           pc        |->  "p_hand",
-                                                           me        |->  me[self] ] >>
-                                                       \o stack[self]]
-               /\ pc' = [pc EXCEPT ![self] = "ss_enter"]
+               /\ IF IsFault(bn[self], "ready-cards", seat[self])
+                     THEN /\ closed' = [closed EXCEPT ![self] = TRUE]
+                          /\ pc' = [pc EXCEPT ![self] = "p_end"]
+                          /\ UNCHANGED << stack, me >>
+                     ELSE /\ /\ me' = [me EXCEPT ![self] = seat[self]]
+                             /\ stack' = [stack EXCEPT ![self] = << [ procedure |->  "SyncSeat",
+                                                                      pc        |->  "p_hand",
+                                                                      me        |->  me[self] ] >>
+                                                                  \o stack[self]]
+                          /\ pc' = [pc EXCEPT ![self] = "ss_enter"]
+                          /\ UNCHANGED closed
                /\ UNCHANGED << table, backlog, ev, bar, evSync, evSeat, 
-                               fromSeat, closed, started, finished, threads, 
-                               log, logState, aborted, interrupted, waitfor, 
-                               cur, alive, b, auc, ply, msg_, j, trick, ci, 
-                               played, nc, seat, rq, msg, bn, act, myturn, 
-                               ncalls, declr, tr, i, cardk, isdummy >>
+                               fromSeat, started, finished, threads, log, 
+                               logState, aborted, interrupted, waitfor, cur, 
+                               alive, b, auc, ply, msg_, j, trick, ci, played, 
+                               nc, seat, rq, msg, bn, act, myturn, ncalls, 
+                               declr, tr, i, cardk, isdummy >>
 
 p_hand(self) == /\ pc[self] = "p_hand"
                 /\ toSeat[seat[self]] # <<>>
@@ -1463,6 +1485,15 @@ SentComplete == (AllDone /\ ~aborted) => \A k \in Reqs : sent[k] = ExpectedStrea
 \* C13: once main has stopped on an abort the log is closed and holds exactly
 \* the boards finished before
 AbortLog == aborted => (logState = "closed" /\ LogPrefix /\ Len(log) = b - 1)
+
+\* growth: a malformed ready-line is not recovered from - the session hangs
+\* with the log left open (documented behaviour of the code, not a property
+\* of the list; extra check X02)
+ReadyFault == Fault.phase \in {"ready-deal", "ready-cards"}
+ReadyFaultHangs == ReadyFault => (pc[0] # "Done" /\ logState # "closed" /\ ~aborted)
+ReadyFaultOneError ==
+  ReadyFault => \A k \in Reqs : closed[k] =>
+     (Requests[k].seat = Fault.index /\ sent[k][Len(sent[k])] = MErr("unexpected"))
 
 \* C20: admission
 TableOnlyGrows == [][\A s \in Seats : table[s] # Free => table'[s] = table[s]]_vars
